@@ -43,10 +43,10 @@ func init() {
 		Explanation: "Applies to the exported Unmarshal functions and to the private functions they hand their input to. Guard facts are the branch conditions on the dominator chain, extended through tested flags/errors that were merged (single-exit style, inlined helpers) and through error-returning guard helpers; exits are the alternatives of the return statements. " +
 			"R1: every binary.BigEndian.UintN(x), constant index buf[c] and constant re-slicing of buf is dominated by facts implying that the bytes touched lie within len(buf). " +
 			"R2: a variable index buf[i] needs a lower bound >= 0 (loop variable from a constant, lengths) and facts implying i < len(buf) (i<len, or i!=len for a loop variable that provably never exceeds len); R1/R2 apply to every view of the buffer (windows, phi-merged windows, a shrinking cursor rest=rest[k:] that walks it), each access bounded by the length of the slice value it is made on. " +
-			"R3: a wire length (result of a varint/fixed decoder, also when kept in a local struct) reaches arithmetic, slice bounds, indices or make sizes only where guard facts bound it: an unsigned comparison against a len(buf)-derived operand, or sign test plus signed bound after the conversion (the sign test may be made before the conversion: the unsigned value is compared with a constant the signed type can hold, and the signed bound may be tested on another evaluation of the same conversion); a window of t bytes is cut only after t was compared with what remains of the sliced value. " +
+			"R3: a wire length (result of a varint/fixed decoder, also when kept in a local struct) reaches arithmetic, slice bounds, indices or make sizes only where guard facts bound it: an unsigned comparison against a len(buf)-derived operand, or sign test plus signed bound after the conversion (the sign test may be made before the conversion: the unsigned value is compared with a constant the signed type can hold, and the signed bound may be tested on another evaluation of the same conversion); a window of t bytes is cut only after t was compared with what remains of the sliced value; an offset result that a private decoder proves to lie within its buffer at every success exit is bounded where it is used as a bound of that very buffer, or is added to the start of the window that was passed (a running offset fed this way is bounded as a bound of the buffer it walks) - any other arithmetic on it is reported. " +
 			"R4: every failure exit reports 0 consumed bytes (or the count of the failing callee, 0 under its own R4). " +
-			"R5: a returned slice/string derives from a sub-slice of the input or from a copy (SliceCopy, make+copy) of one. " +
-			"R6: the consumed count of a success exit is a guarded constant, an expression the facts and loop invariants (loop variable <= len, len(cursor) <= len(buf) for a cursor only re-sliced without upper bound) place in [0,len(buf)], a callee count, the end offset of a window cut from buf under R3, or an external decoder's count under an n>0 guard. R3 also: a byte of the input used as a number (a one-byte length header) is a wire length where it bounds a slice. R7: private functions reached from the decoders (error constructors, formatters) index fixed-size tables in range, by interval evaluation of the index (constants, + - / by constants, widening conversions, bits.Len as a monotone function - bits.Len(x) of a 64-bit unsigned x that is not bounded below 2^63 ranges up to 64, i.e. over 65 values -, refined by dominating comparisons with constants). R8: in every loop of the decoders (and of the private functions they hand their input to) the cursor - an integer phi of the loop header that reaches an index or slice bound of the buffer, or a phi that is a window of the buffer - does not arrive recognisably unchanged (the phi itself, also through merges in the body, plus zero, re-sliced from 0) over any back edge: a way round the loop that does not advance reads the same byte again and never returns.",
+			"R5: a returned slice/string derives from a sub-slice of the input or from a copy (SliceCopy, make+copy) of one; a returned list of byte sequences starts empty and grows by append of such values. " +
+			"R6: the consumed count of a success exit is a guarded constant, an expression the facts and loop invariants (loop variable <= len, len(cursor) <= len(buf) for a cursor only re-sliced without upper bound) place in [0,len(buf)], a callee count (also a further offset result of a private decoder that the callee proves to lie within its buffer at every success exit), a running offset that starts at 0 and grows by the counts of decoders applied to buf[offset:], the end offset of a window cut from buf under R3, or an external decoder's count under an n>0 guard. R3 also: a byte of the input used as a number (a one-byte length header) is a wire length where it bounds a slice. R7: private functions reached from the decoders (error constructors, formatters) index fixed-size tables in range, by interval evaluation of the index (constants, + - / by constants, widening conversions, bits.Len as a monotone function - bits.Len(x) of a 64-bit unsigned x that is not bounded below 2^63 ranges up to 64, i.e. over 65 values -, refined by dominating comparisons with constants). R8: in every loop of the decoders (and of the private functions they hand their input to) the cursor - an integer phi of the loop header that reaches an index or slice bound of the buffer, or a phi that is a window of the buffer - does not arrive recognisably unchanged (the phi itself, also through merges in the body, plus zero, re-sliced from 0) over any back edge: a way round the loop that does not advance reads the same byte again and never returns.",
 		NotDecided: "nothing material about panics on the idioms recognised; an unrecognised index/bound expression is reported as undecided (CHECK-ERROR), not guessed. 'Sub-range' is established as provenance, not arithmetic.",
 	})
 }
@@ -671,7 +671,8 @@ func (c *Ctx) wireLengthTaint(fn *ssa.Function, buf ssa.Value, isDecoder map[*ss
 		if bo, ok := v.(*ssa.BinOp); ok && (tainted[bo.X] || tainted[bo.Y]) && !byteTaint[v] {
 			return
 		}
-		c.Decide("C16.R3", fn, what+" on wire length", in, bounded(v, in.Block()),
+		// (an offset that a private decoder has bounded within the buffer it was given, used on that buffer: v_codec_u_batch.go)
+		c.Decide("C16.R3", fn, what+" on wire length", in, bounded(v, in.Block()) || c.offsetUseV(in, v, buf),
 			"a length taken from the input reaches "+what+" without a guard that bounds it against the remaining input (unsigned compare with a len(buf)-derived operand, or sign test + signed bound): a crafted prefix overflows/slices out of range")
 	}
 	ir.Instrs(fn, func(in ssa.Instruction) {
@@ -848,6 +849,9 @@ func (c *Ctx) fromInput(cx *linCtxB, v ssa.Value, buf ssa.Value, isDecoder map[*
 	if depth > 6 {
 		return false, "provenance too deep"
 	}
+	if ok, why, handled := c.appendedFromInputV(cx.refine(v), func(el ssa.Value) (bool, string) { return c.fromInput(cx, el, buf, isDecoder, depth+1) }); handled {
+		return ok, why // a list of values grown by append (v_codec_u_batch.go)
+	}
 	for _, o := range ir.Origins(cx.refine(v)) {
 		switch x := o.(type) {
 		case *ssa.Slice:
@@ -910,13 +914,17 @@ func (c *Ctx) successCount(fn *ssa.Function, ep exitB, cx *linCtxB, cnt ssa.Valu
 		c.Decide(rule, fn, what, ret, k >= 0 && lb >= k, fmt.Sprintf("the constant count %d is not covered by the length guard (len(buf) >= %d)", k, lb))
 		return
 	}
-	if ex, ok := cnt.(*ssa.Extract); ok && ex.Index == 0 {
-		if call, ok := ex.Tuple.(*ssa.Call); ok {
+	if ex, ok := cnt.(*ssa.Extract); ok {
+		if call, ok := ex.Tuple.(*ssa.Call); ok && (ex.Index == 0 || c.boundedResultV(ir.StaticCallee(call), ex.Index)) {
 			if isDecoder[ir.StaticCallee(call)] && same(decBufArgB(call), buf) {
 				c.Decide(rule, fn, what, ret, true, "")
 				return
 			}
 		}
+	}
+	if c.runningOffsetV(cnt, buf, fn.Pkg) { // a running offset fed by decoders applied to buf[offset:] (v_codec_u_batch.go)
+		c.Decide(rule, fn, what, ret, true, "")
+		return
 	}
 	if ex, ok := cnt.(*ssa.Extract); ok {
 		if call, ok := ex.Tuple.(*ssa.Call); ok && strings.HasPrefix(ir.CalleeFullName(call), "encoding/binary.") && ex.Index == 1 {
